@@ -123,6 +123,10 @@ func runC02() {
 		if run.Thorough() {
 			nHist = 1
 		}
+		if !run.Thorough() || n%3 == 0 {
+			slowOwnerScenario(r.Fork())
+			rec.Count("c02:family:slow-owner")
+		}
 		for i := 0; i < nHist; i++ {
 			historyScenario(r.Fork())
 			rec.Count("c02:family:history")
